@@ -332,6 +332,8 @@ def check_c02(prog, rep, tier, cfg):
     # ---------------------------------------------------------------- C02.g separating spaces survive until all wrapping is done
     import layout
     layout.zeroing_after_wrapping(prog, rep, "C02.g")
+    # ---------------------------------------------------------------- C02.h same text except the documented normalisations
+    text.documented_normalisations(prog, rep, "C02.h")
     # ---------------------------------------------------------------- C02.f spacing table never forces 0 between word-like tokens
     R = "C02.f"
     for fn, zero_for, root in (("spaces_before", {"None": None, "Op": {"LBrack", "LParen", ("LessThan", "Generic")}}, "before"), ("spaces_after", {"Op": {"RBrack", "RParen", ("GreaterThan", "Generic")}}, "after")):
